@@ -1,5 +1,5 @@
 """C16 - the library's own writers and readers are mutual inverses."""
-import io, json, struct, socket
+import io, json, struct, socket, os
 from tools import common, impl, gen_types, gen_const
 from tools.c03 import modelrun_lines
 LEVEL = 'proof'
@@ -134,6 +134,19 @@ def run(ctx):
             mm = m if not m.startswith('ERR') else m.replace('ERR os', 'ERR struct')
             if got != mm and corr_bad is None and not (got.startswith('ERR') and mm.startswith('ERR') and 'unrepresentable' in flags):
                 corr_bad = dict(type=s, hdr=h, value=gen_types.canon_of(t, v)[:300], implementation=got[:300], model=m[:300])
+            # writing IN PLACE: the same value written into a stream that already holds data, at a position in the middle - exactly the same bytes
+            # must appear there, the position afterwards is right behind them, and what lies further behind is not touched
+            if wrote is not None and len(wrote) < 4000 and (gen_types.depth_of(t) >= 1 or rng.random() < 0.2):
+                junk = bytes((37 * k_ + 11) & 255 for k_ in range(len(wrote) + 24)); st2 = io.BytesIO(junk); st2.seek(5)
+                try: lt.write_to_stream(st2, py, h); end2 = st2.tell(); buf2 = st2.getvalue()
+                except Exception as e2: end2 = None; buf2 = b''
+                ctx.count('write-in-place')
+                if end2 != 5 + len(wrote) or buf2[5:5 + len(wrote)] != wrote or buf2[:5] != junk[:5] or buf2[5 + len(wrote):] != junk[5 + len(wrote):]:
+                    if ('in-place', s) not in seen_dev:
+                        seen_dev.add(('in-place', s))
+                        ctx.violation(dict(kind='write-in-place', type=s, hdr=h, value=gen_types.canon_of(t, v)[:300], written_to_empty_stream=wrote.hex()[:200], position_after=end2,
+                                           expected_position=5 + len(wrote), buffer_after=buf2.hex()[:300],
+                                           how='the value written into BytesIO(<junk of len(encoding)+24 bytes>) after seek(5): bytes [5, 5+n) must be the encoding, tell() = 5+n, the rest unchanged'))
             # the property itself
             if wrote is not None:
                 rd = io.BytesIO(wrote + tail)
@@ -226,6 +239,25 @@ def run(ctx):
             except Exception:
                 pass
         if bad_args: ctx.violation(dict(kind='method-args-write-read', **bad_args))
+        # the refusal of a wrong argument count is a refusal under `python -O` too (assert statements compiled away)
+        import subprocess, json as json_
+        child = ("import io, json\nfrom tools import impl\nfrom replay_unpack.core.entity_def.entity_description import EntityMethod, MethodArgument\n"
+                 "lib = impl.LibTypes(); out = []\n"
+                 "for ts, give in (([('u', 2), ('f32',)], [77, 1.5, 3]), ([('u', 2), ('f32',)], [77]), ([], [1]), ([('string',)], []), ([('u', 1)], [5])):\n"
+                 "    m = EntityMethod('m', True, [MethodArgument(lib.make(t)) for t in ts], 1); st = io.BytesIO()\n"
+                 "    try: m.write_to_stream(st, *give); out.append(['written', st.getvalue().hex()])\n"
+                 "    except Exception as e: out.append(['refused', type(e).__name__])\n"
+                 "lib.close(); print(json.dumps(out))\n")
+        pr = subprocess.run([common.PY, '-O', '-c', child], capture_output=True, text=True, timeout=120, cwd=common.VERIF,
+                            env=dict(os.environ, PYTHONPATH=common.REPO + os.pathsep + common.VERIF))
+        ctx.case(None); ctx.count('refusals-under-python-O', 5)
+        try: res = json_.loads(pr.stdout.strip().splitlines()[-1])
+        except Exception: res = None
+        ctx.obligation('the python -O child for the argument-count refusals ran', res is not None, pr.stderr[-400:])
+        if res is not None and ([r[0] for r in res[:4]] != ['refused'] * 4 or res[4] != ['written', '05']):
+            ctx.violation(dict(kind='method-args-write-read', interpreter='python -O', results=res,
+                               expected='refused, refused, refused, refused, written 05',
+                               how='python -O: EntityMethod with arguments (u16, f32) given 3 and 1 values, () given 1, (string) given 0, (u8) given [5]: a wrong count is refused with an exception under every interpreter switch'))
         # ONE-argument methods whose argument is itself a list / tuple / text (a writer that "unwraps" a lone sequence would take its elements
         # for the argument list): written, read back through the method, compared
         for t, val in ((('array', ('string',), None), ['ab']), (('array', ('string',), None), ['ab', 'cd']), (('array', ('array', ('string',), None), None), [['ab', 'cd']]),
